@@ -142,6 +142,17 @@ func c12Scenarios(batch int) []Scenario {
 			}
 			x.Outcome = r.String()
 		}})
+	// S7: the appended header is NOT contiguous with Head and the gap is never filled
+	out = append(out, Scenario{Name: "S7-gapped-never-filled", Batch: batch, Preload: 1,
+		Build: func(e *Env) {
+			ctx, _ := context.WithTimeout(bg, readerDeadline) //nolint
+			reader(e, "R", ctx, 4)
+			e.Thread("A", func() { _ = e.St.Append(bg, e.C[4]) })
+		},
+		Check: func(e *Env, x *Exec, viol func(string, string, ...any)) {
+			wantHeader(e, x, "R", 4, viol)
+			x.Outcome = res(e, "R").String()
+		}})
 	if !thoroughTier {
 		return out
 	}
